@@ -98,11 +98,14 @@ def run(ctx):
         alph = ["ACD"] if len(mr.kw["letters"]) == 3 else ["AC", "WY"]
         if "hash" in mr.kw["engines"] and max(mr.kw["ks"]) >= 2:
             alph = alph[:1]          # the real edit ball over 20 letters is large for k >= 2
+        # letters outside the 20 amino acids (any alphabet is legal for the deletion-index search; skipped for the hash engine)
+        aa_only = list(alph)
+        alph = alph + (["X*b"] if len(mr.kw["letters"]) == 3 else ["X*"])
         if mr.kw.get("maxlookups"):
-            replay_histories(ctx, res, alph[0], max_groups=None if ctx.quick else 1500)
+            replay_histories(ctx, res, aa_only[0], max_groups=None if ctx.quick else 1500)
         else:
             npx.replay_emitted(ctx, res, alph, classify=classify_with_equal_positions, budget=None if ctx.quick else 40000)
-            replay_histories(ctx, res, alph[-1], max_groups=None if ctx.quick else 1500)
+            replay_histories(ctx, res, aa_only[-1], max_groups=None if ctx.quick else 1500)
     ctx.exhaustive = True
     # ---- recorded sessions
     sessions, sid = [], 0
